@@ -14,7 +14,7 @@ sys.path.insert(0, os.path.join(VERIF, "translator"))
 THEOREMS = ["C04_polypade_routes_agree", "C04_polypade_gradient_is_derivative", "C04_polypade_laplacian_is_second_derivative",
             "C04_polypade_smooth_at_cutoff", "C04_cusp_routes_agree", "C04_cusp_gradient_is_derivative", "C04_cusp_laplacian_is_second_derivative",
             "C04_cusp_smooth_at_cutoff", "C04_exponential_rule", "C04_product_rule", "C04_sum_rule", "C04_hypotheses_satisfiable",
-            "C04_determinant_is_linear_in_the_moved_row", "C04_slater_derivative_is_the_ratio_formula_on_derivative_orbitals"]
+            "C04_kinetic_energy_is_minus_half_the_laplacians", "C04_determinant_is_linear_in_the_moved_row", "C04_slater_derivative_is_the_ratio_formula_on_derivative_orbitals"]
 S_F3 = "pyqmc/wf/func3d.py"
 S_WF = "wave function gradient/laplacian"
 S_KE = "pyqmc/observables/energy.py:kinetic"
